@@ -28,7 +28,8 @@ RULE = ("randsphere: boxes [ra_lo,ra_hi] x [dec_lo,dec_hi] inside [0,360] x [-90
         "cumulative values and their neighbours; cholesky_sample/CholeskySampler: SPD A.A^T+dI up to 5x5 with a "
         "recording deviate source; random_indices(imax, nrand, unique, seed|rng). Non-trivial: a cap touching a "
         "pole or the seam or with r > 90 deg, get_radius with rotation, u equal to a tabulated cumulative value, "
-        "covariance with n >= 3, unique indices with nrand > imax/2. Distinct = distinct case JSON.")
+        "covariance with n >= 3, unique indices with nrand > imax/2. Distinct = distinct case JSON."
+        " Also: integer-typed grids for Generator; cap centres given as 0-d / one-element arrays that are handed over again in the repeated calls.")
 ASSUMPTIONS = [
     "support and the deterministic deviate->value map are tested, not uniformity (DESIGN.md section 6)",
     "cap tolerance r + 2e-6 deg + 1e-9 r: the arccos conditioning of the documented algorithm (the statement gives "
